@@ -46,9 +46,61 @@ LEVEL_NOTE = ("Trusted: Lean kernel + Mathlib reals; propext/Classical.choice/Qu
 TECHNIQUE = "Lean 4 proof (model = published equations over R, ring/field_simp) + differential correspondence on all intermediates + spec-on-Float oracle"
 
 
+EDGE_YEARS = [69, 70, 99, 0, 1, 55, 56]           # both ends of the quantified range 1969-2056 and the century turn
+LEAP_YEARS = [72, 96, 0, 4, 52, 56]               # 1972, 1996, 2000 (divisible by 400), 2004, 2052, 2056
+DAY_KINDS = ["first", "first_frac", "last_frac", "last_end", "leap_day", "day_after_feb", "mid"]
+
+
+def civil_year(yy):
+    """The civil year a printed two-digit epoch year denotes under the TLE convention (57-99 -> 19xx, 00-56 -> 20xx)."""
+    return 1900 + yy if yy >= 57 else 2000 + yy
+
+
+def edge_epoch_fields(rng, k):
+    """Printed epoch fields for the k-th member of the epoch-edge family: the two-digit years at the edges of the
+    quantified range (each drawn explicitly, in turn) and leap years, with the day of year at both ends of the year,
+    on the leap day and on the day after February."""
+    nk = len(DAY_KINDS)
+    if k < len(EDGE_YEARS) * nk:
+        yy, kind = EDGE_YEARS[k % len(EDGE_YEARS)], DAY_KINDS[(k // len(EDGE_YEARS)) % nk]
+    else:
+        yy, kind = rng.choice(EDGE_YEARS + LEAP_YEARS), rng.choice(DAY_KINDS)
+    year = civil_year(yy)
+    leap = year % 4 == 0 and (year % 100 != 0 or year % 400 == 0)
+    ndays = 366 if leap else 365
+    frac = "%08d" % rng.randrange(10 ** 8)
+    if kind == "first":
+        day, frac = 1, "00000000"
+    elif kind == "first_frac":
+        day = 1
+    elif kind == "last_frac":
+        day = ndays
+    elif kind == "last_end":
+        day, frac = ndays, "99999999"
+    elif kind == "leap_day":
+        day = 60                                  # 29 February of a leap year, 1 March otherwise
+    elif kind == "day_after_feb":
+        day = 61 if leap else 60
+        frac = rng.choice(["00000000", frac])
+    else:
+        day = rng.randrange(1, ndays + 1)
+    ed = "%03d.%s" % (day, frac)
+    if rng.random() < 0.3:
+        ed = "%3d.%s" % (day, frac)               # blank-padded day of year, as some sources print it
+    return {"epoch_year": "%02d" % yy, "epoch_day": ed}, "%02d/%s" % (yy, kind)
+
+
 def gen_cases(ctx, n):
     cases = [(l1, l2) for (_, l1, l2) in tlegen.REAL_TLES]
     regimes = ["near"] * 5 + ["leo"] * 3 + ["any"] * 2
+    # epochs at the EDGES of the quantified range (years 69, 70, 99, 00, 01, 55, 56 x day-of-year kinds), on top of n
+    for k in range(ctx.size(len(EDGE_YEARS) * len(DAY_KINDS), 600)):
+        ov, kind = edge_epoch_fields(ctx.rng, k)
+        _, l1, l2 = tlegen.random_tle(ctx.rng, ctx.rng.choice(["near", "near", "leo"]), overrides=ov)
+        ctx.bump("epoch_edge_year", kind[:2])
+        ctx.bump("epoch_edge_day", kind[3:])
+        cases.append((l1, l2))
+    n += len(cases) - len(tlegen.REAL_TLES)
     while len(cases) < n:
         if ctx.rng.random() < 0.05:
             # "any B*": a drag term printed with a POSITIVE exponent (|B*| >= 1) on an orbit high enough to stay accepted
@@ -212,20 +264,31 @@ def oracle(ctx):
         except Exception:  # noqa  refusals are C13's subject
             ctx.count("oracle_refused_at_init")
             continue
-        ts = gen_ts(ctx) + [ctx.rng.randrange(-7 * 86400 * 10 ** 6, 7 * 86400 * 10 ** 6) / 60e6]
+        ts0 = gen_ts(ctx) + [ctx.rng.randrange(-7 * 86400 * 10 ** 6, 7 * 86400 * 10 ** 6) / 60e6]
+        if ctx.rng.random() < 0.25:            # the ends of the +-60 day window
+            ts0.append(ctx.rng.choice([-1, 1]) * (60 * 86400 * 10 ** 6 - ctx.rng.randrange(0, 3600 * 10 ** 6)) / 60e6)
         nums = printed_elements(l1, l2)      # the elements as PRINTED in the two lines (decoded here, not by pyorbital)
-        lines.append("str3 " + " ".join(lib.f2h(x) for x in nums) + "".join(" " + lib.f2h(t) for t in ts))
-        recs.append((l1, l2, o, ts))
-    outs = drv.run_parallel(lines) if drv else [None] * len(lines)
-    worst_p = worst_v = 0.0
-    for (l1, l2, o, ts), out in zip(recs, outs):
-        steps = out.split(" | ")[1:] if out else []
-        for k, t in enumerate(ts):
+        # the epoch as PRINTED (civil year of the TLE convention, decoded here); pyorbital's own only for years 57-68,
+        # which lie outside the quantified range 1969-2056
+        ep = epoch_of(o, l1)
+        ctx.bump("epoch_source", "printed" if printed_epoch_us(l1) is not None else "library(year 57-68)")
+        offs, ts = [], []
+        for k, t in enumerate(ts0):
             us = int(round(t * 60e6))
             tkind = TIME_KINDS[(k + len(l1) + us) % len(TIME_KINDS)] if k else "dt64us"
-            tt = time_of(o, us, tkind)
-            t_exact = us / 60e6
-            case = {"line1": l1, "line2": l2, "minutes": t_exact, "time_kind": tkind}
+            ns = snap_ns(ep, us * 1000 + (ctx.rng.randrange(1000) if tkind == "dt64ns" and k % 2 else 0), tkind)
+            offs.append((ns, tkind))
+            ts.append(ns / 60e9)
+        lines.append("str3 " + " ".join(lib.f2h(x) for x in nums) + "".join(" " + lib.f2h(t) for t in ts))
+        recs.append((l1, l2, o, ts, ep, offs))
+    outs = drv.run_parallel(lines) if drv else [None] * len(lines)
+    worst_p = worst_v = 0.0
+    for (l1, l2, o, ts, ep, offs), out in zip(recs, outs):
+        steps = out.split(" | ")[1:] if out else []
+        for k, t_exact in enumerate(ts):
+            ns, tkind = offs[k]
+            tt = time_of(ep, ns, tkind)
+            case = {"line1": l1, "line2": l2, "minutes": t_exact, "time_kind": tkind, "offset_ns": ns}
             ctx.bump("time_kind", tkind)
             try:
                 with warnings.catch_warnings():
@@ -275,17 +338,22 @@ def oracle(ctx):
                 ctx.count("oracle_outside_a_ratio")
     ctx.note("worst |dr| vs Spec.Str3 = %.3g km, worst |dv| = %.3g km/s" % (worst_p, worst_v))
     # the answer is a function of (elements, instant): array-valued times, re-used and updated in place between queries
-    for (l1, l2, o, ts) in recs[:ctx.size(25, 400)]:
+    for (l1, l2, o, ts, ep, offs) in recs[:ctx.size(25, 400)]:
         ctx.bump("sequence_probe", seq_probe(ctx, l1, l2, [ts[1], ts[1] + 1.5, ts[1] + 7.0], ctx.rng.choice([90.0, 600.0, 5.0]), o))
     # array-valued times spanning whole revolutions on eccentric orbits: each element conforms on its own
     if drv:
         done = 0
-        for (l1, l2, o, ts) in recs:
+        edge_done = 0
+        for (l1, l2, o, ts, ep, offs) in recs:
             if done >= ctx.size(12, 150):
                 break
             if float(o.tle.excentricity) < 0.02:
-                continue
-            done += 1
+                # ... and a few arrays on the epoch-edge family whatever the eccentricity
+                if not (edge_done < ctx.size(4, 40) and int(l1[18:20]) in (69, 0, 56)):
+                    continue
+                edge_done += 1
+            else:
+                done += 1
             ctx.bump("array_probe", array_probe(ctx, drv, l1, l2, ctx.rng.uniform(-3000.0, 3000.0), o))
     # AIAA vectors
     worst = 0.0
@@ -295,7 +363,7 @@ def oracle(ctx):
         except Exception:  # noqa
             continue
         for (mins, p, v) in vecs:
-            tt = o.tle.epoch + np.timedelta64(int(round(mins * 60e6)), "us")
+            tt = epoch_of(o, l1) + np.timedelta64(int(round(mins * 60e6)), "us")
             try:
                 pos, vel = o.get_position(tt, normalize=False)
             except Exception:  # noqa
@@ -318,12 +386,47 @@ def printed_elements(l1, l2):
             float(l2[52:63]), bstar]
 
 
-def time_of(o, us, kind):
-    """The instant epoch + us microseconds in one of the time representations the API accepts."""
-    t64 = o.tle.epoch + np.timedelta64(us, "us")
+def printed_epoch_us(l1):
+    """The epoch PRINTED in line 1 as exact integer microseconds since 1970-01-01T00:00 UTC, decoded here independently of
+    pyorbital: civil year by the TLE convention (57-99 -> 19xx, 00-56 -> 20xx), 1 January + (day of year - 1); the eight
+    printed decimals of a day are a whole number of 864 us.  None for the years 57-68 (outside the range 1969-2056 the
+    property quantifies over; pyorbital reads them as 2057-2068) and for a field that is not `yy` + `ddd.dddddddd`."""
+    yy, fld = l1[18:20], l1[20:32]
+    ip, _, fp = fld.partition(".")
+    if not (yy.isdigit() and ip.strip().isdigit() and len(fp) == 8 and fp.isdigit()):
+        return None
+    if 57 <= int(yy) <= 68:
+        return None
+    jan1 = (dt.date(civil_year(int(yy)), 1, 1) - dt.date(1970, 1, 1)).days
+    return (jan1 + int(ip) - 1) * 86400 * 10 ** 6 + int(fp) * 864
+
+
+def epoch_of(o, l1):
+    """datetime64[us] of the element set's epoch: as printed (see printed_epoch_us); the library's own reading only where
+    the property does not fix the century."""
+    us = printed_epoch_us(l1)
+    return o.tle.epoch.astype("datetime64[us]") if us is None else np.datetime64(us, "us")
+
+
+def snap_ns(epoch, ns, kind):
+    """offset (ns since epoch) moved down to the grid of the time representation `kind` (absolute grid: ms / s kinds)"""
+    grid = {"dt64ns": 1, "dt64ms": 10 ** 6, "dt64s": 10 ** 9}.get(kind, 1000)
+    ep_ns = int(epoch.astype("datetime64[us]").astype("int64")) * 1000
+    return (ep_ns + ns) // grid * grid - ep_ns
+
+
+def time_of(epoch, ns, kind):
+    """The instant epoch + ns nanoseconds in one of the time representations the API accepts (ns on the kind's grid)."""
+    t64 = epoch.astype("datetime64[us]") + np.timedelta64(ns // 1000, "us")
     if kind == "dt64us":
         return t64
-    naive = t64.astype("datetime64[us]").astype(object)
+    if kind == "dt64ns":
+        return epoch.astype("datetime64[ns]") + np.timedelta64(ns, "ns")
+    if kind == "dt64ms":
+        return t64.astype("datetime64[ms]")
+    if kind == "dt64s":
+        return t64.astype("datetime64[s]")
+    naive = t64.astype(object)
     if kind == "datetime":
         return naive
     if kind == "aware_utc":
@@ -331,7 +434,7 @@ def time_of(o, us, kind):
     return naive.replace(tzinfo=dt.timezone.utc).astimezone(dt.timezone(dt.timedelta(minutes=330 if kind == "aware+0530" else -480)))
 
 
-TIME_KINDS = ["dt64us", "dt64us", "datetime", "aware_utc", "aware+0530", "aware-0800"]
+TIME_KINDS = ["dt64us", "dt64us", "datetime", "aware_utc", "aware+0530", "aware-0800", "dt64ns", "dt64ms", "datetime", "dt64s", "dt64ns"]
 
 
 def array_probe(ctx, drv, l1, l2, start_min, o=None, n=180, step_min=1.5):
@@ -341,7 +444,7 @@ def array_probe(ctx, drv, l1, l2, start_min, o=None, n=180, step_min=1.5):
     o = o or orbital.Orbital("x", line1=l1, line2=l2)
     mins = [start_min + k * step_min for k in range(n)]
     us = [int(round(m * 60e6)) for m in mins]
-    arr = o.tle.epoch + np.array(us, dtype="int64").astype("timedelta64[us]")
+    arr = epoch_of(o, l1) + np.array(us, dtype="int64").astype("timedelta64[us]")
     try:
         pos, vel = o.get_position(arr, normalize=False)
     except Exception:  # noqa  refusals/decay: C13
@@ -369,7 +472,7 @@ def seq_probe(ctx, l1, l2, mins, step_s, o=None):
     must be the state at the array's current instants, i.e. equal what a fresh object returns for fresh scalar times."""
     from pyorbital import orbital
     o = o or orbital.Orbital("x", line1=l1, line2=l2)
-    arr = np.array([o.tle.epoch + np.timedelta64(int(round(m * 60e6)), "us") for m in mins], dtype="datetime64[us]")
+    arr = np.array([epoch_of(o, l1) + np.timedelta64(int(round(m * 60e6)), "us") for m in mins], dtype="datetime64[us]")
     step = np.timedelta64(int(round(step_s * 1e6)), "us")
     for rnd in range(3):
         try:
@@ -417,7 +520,9 @@ def replay(ctx, case):
         print("sequence probe:", r)
         return 1 if r == "violated" else 0
     o = orbital.Orbital("x", line1=inp["line1"], line2=inp["line2"])
-    tt = time_of(o, int(round(inp["minutes"] * 60e6)), inp.get("time_kind", "dt64us"))
+    ns = inp["offset_ns"] if "offset_ns" in inp else int(round(inp["minutes"] * 60e6)) * 1000
+    tt = time_of(epoch_of(o, inp["line1"]), ns, inp.get("time_kind", "dt64us"))
+    print("printed epoch", epoch_of(o, inp["line1"]), "library epoch", o.tle.epoch, "time asked", repr(tt))
     with warnings.catch_warnings():
         warnings.simplefilter("ignore")
         pos, vel = o.get_position(tt, normalize=False)
